@@ -7,6 +7,7 @@ toolchain go1.25.5
 require (
 	github.com/ozontech/file.d v0.0.0
 	github.com/ozontech/insane-json v0.1.9
+	github.com/prometheus/client_golang v1.16.0
 )
 
 require (
@@ -53,7 +54,6 @@ require (
 	github.com/pierrec/lz4/v4 v4.1.25 // indirect
 	github.com/pkg/errors v0.9.1 // indirect
 	github.com/pmezard/go-difflib v1.0.1-0.20181226105442-5d4384ee4fb2 // indirect
-	github.com/prometheus/client_golang v1.16.0 // indirect
 	github.com/prometheus/client_model v0.3.0 // indirect
 	github.com/prometheus/common v0.42.0 // indirect
 	github.com/prometheus/procfs v0.10.1 // indirect
